@@ -114,8 +114,13 @@ def r2(ctx):
     ctx.require(len(rv) == 1 and match(core(rv[0][3][0]), Call('Dictionary::new', _var('inner'))), b, 'result', 'Ok(Dictionary::new(inner))', None)
     nw = ctx.body(D + 'new')
     rvn = ret_values(nw)
-    ok = len(rvn) == 1 and rvn[0][0][0] == 'agg' and match(core(agg_field(ctx.facts, rvn[0][0], 'freq_sum')), Call('Iterator::sum', Call('HashMap::values', ('arg', 1, ANY)))) and \
-        match(core(agg_field(ctx.facts, rvn[0][0], 'inner')), ('arg', 1, ANY))
+    from analysis.reduce import reduce_of
+    from analysis.seq import ITEM
+    ok = len(rvn) == 1 and rvn[0][0][0] == 'agg' and match(core(agg_field(ctx.facts, rvn[0][0], 'inner')), ('arg', 1, ANY))
+    if ok:
+        rd = reduce_of(ctx.facts, nw, agg_field(ctx.facts, rvn[0][0], 'freq_sum'))
+        ok = rd is not None and rd.op == 'add' and rd.init is not None and match(core(rd.init), Const(0)) and len(rd.segs) == 1 and rd.segs[0].kind == 'each' and \
+            not rd.segs[0].conds and match(core(rd.segs[0].src), Call('HashMap::values', ('arg', 1, ANY))) and core(rd.segs[0].elem) == ITEM
     ctx.require(ok, nw, 'freq-sum', 'freq_sum = sum of the kept frequencies', None)
 
 
@@ -204,7 +209,9 @@ def r5(ctx):
     sp = [t for t in l.calls(r'str::split$')]
     ok = len(sp) == 1 and match(sym(l, sp[0].args[1]), Pred(lambda u: u[0] == 'const' and u[2] == 9))
     ctx.require(ok, l, 'load-separator', 'load splits on TAB', 'load splits on %s' % [show_in(l, sym(l, t.args[1])) for t in sp])
-    ok = any(pol is True and match(core(tt), ('bin', 'Ne', Call('Vec::len', ANY), Const(2))) for g in edge_guards(l) for tt, pol in [g.atom()])
+    islen = Pred(lambda u: match(u, Call('Vec::len', ANY)) or match(u, Call('slice::len', ANY)) or (u[0] == 'un' and u[1] in ('PtrMetadata', 'Len')) or
+                 (u[0] == 'call' and u[1].endswith('PtrMetadata')))
+    ok = any(pol is not None and (match(core(tt), ('bin', 'Ne', islen, Const(2))) or match(core(tt), ('bin', 'Eq', islen, Const(2)))) for g in edge_guards(l) for tt, pol in [g.atom()])
     ctx.require(ok, l, 'load-two-fields', 'load rejects lines that do not have exactly two fields', None)
     ins = [t for t in l.calls(r'HashMap::insert$')]
     ok = len(ins) == 1 and match(core(sym(l, ins[0].args[1])), ('index', ANY, Const(0))) and has(core(sym(l, ins[0].args[2])), ('index', ANY, Const(1)))
